@@ -152,6 +152,20 @@ package interp
 //@   ensures [C10] cancelled-receive-leaves-its-destination-alone: selCalled && selChosen == 0 ==> getFrame(f, l).data[i] == old(getFrame(f, l).data[i])
 //@   canary selCalled ==> atSelect(isDone(selCases[1], f))
 
+// The receive used as a value (x = <-ch, in cancellable mode): the value goes to the destination of the
+// receive — slot i of the frame `l` levels up, where the destination variable lives —, whether it was there
+// at once or only after waiting.
+//@ lit recv calls:Select#2 (f) (next)
+//@   props C08
+//@   opt loops = havoc
+//@   opt safety = off
+//@   opt ghost-select = true
+//@   opt opaque-calls = *
+//@   opt preserve = F_interp_frame_id, F_interp_Interpreter_id, F_interp_node_interp, F_reflect_SelectCase_Chan, F_reflect_SelectCase_Dir
+//@   requires f != nil
+//@   ensures [local:v] a-value-received-after-waiting-goes-to-the-destination-of-the-receive: selCalled && selChosen != 0 ==> getFrame(f, l).data[i] == v
+//@   ensures [local:r] a-value-received-at-once-goes-to-the-destination-of-the-receive: !selCalled ==> getFrame(f, l).data[i] == r
+
 //@ lit recv2 calls:Select (f) (next)
 //@   props C09
 //@   opt loops = havoc
